@@ -1,7 +1,8 @@
 ------------------------------- MODULE TraceT1 -------------------------------
 (***************************************************************************)
-(* White-box conformance: a recorded execution of the real GcodeHandlers / *)
-(* ExcludeRegionState must be a behaviour of Filter.tla -- at every step   *)
+(* White-box conformance: a recorded execution of the real plugin (or of   *)
+(* the bare GcodeHandlers / ExcludeRegionState) must be a behaviour of     *)
+(* Plugin.tla / Filter.tla -- at every step                                *)
 (* the result kind, every emitted command and the projected internal state *)
 (* must equal what the model computes from the same input.                 *)
 (*                                                                         *)
@@ -15,24 +16,30 @@ EXTENDS Integers, Sequences, FiniteSets, Json, IOUtils, TLC, TLCExt
 
 SynthTxt == ""
 Dev == {"g92sign"}      \* the deviations of the current tree (Filter.tla)
-INSTANCE Filter
+INSTANCE Plugin
 
 ASSUME TLCSet(1, JsonDeserialize(IOEnv.TRACE_FILE))
 ASSUME TLCSet(2, <<>>)
 Traces == TLCGet(1)
 
-VARIABLES tid, i, fs, verdict
-vars == <<tid, i, fs, verdict>>
+VARIABLES tid, i, ps, verdict
+vars == <<tid, i, ps, verdict>>
+fs == ps.fs
 
 Conform == [c |-> "conform", s |-> 0, f |-> "", dbg |-> <<>>]
 
 TraceCf(t) == [g90e |-> t.cf.g90e, enter |-> t.cfx.enter, exit |-> t.cfx.exit,
                xg |-> t.cf.xg, q |-> t.q]
 
+StoreOf(cf, cfx, q) ==
+    [clearAfter |-> cf.clearAfter, mayShrink |-> cf.mayShrink,
+     cf |-> [g90e |-> cf.g90e, enter |-> cfx.enter, exit |-> cfx.exit, xg |-> cf.xg, q |-> q]]
+
 Init ==
     /\ tid \in 1..Len(Traces)
     /\ i = 1
-    /\ fs = FInit(TraceCf(Traces[tid]), <<>>)
+    /\ ps = [PInit(StoreOf(Traces[tid].cf, Traces[tid].cfx, Traces[tid].q))
+             EXCEPT !.active = Traces[tid].active0]
     /\ verdict = Conform
 
 (***************************************************************************)
@@ -101,6 +108,25 @@ OutDiff(r, ev, u) ==
          THEN "result.command"
     ELSE ""
 
+RegionsSame(m, l) ==
+    /\ Len(m) = Len(l)
+    /\ \A k \in 1..Len(m) :
+          /\ m[k].t = l[k].t /\ m[k].id = l[k].id /\ m[k].a = l[k].a /\ m[k].b = l[k].b
+          /\ m[k].c = l[k].c /\ m[k].d = l[k].d
+
+NotesSame(m, l) ==
+    /\ Len(m) = Len(l)
+    /\ \A k \in 1..Len(m) : RegionsSame(m[k], l[k])
+
+\* plugin-level projection: lifecycle flag, applied settings, registry, filter state
+PluginDiff(p, ev) ==
+    IF "pst" \notin DOMAIN ev THEN StateDiff(p.fs, ev.st)
+    ELSE IF p.active # ev.pst.active THEN "active"
+    ELSE IF p.clearAfter # ev.pst.clearAfter THEN "clearAfter"
+    ELSE IF p.mayShrink # ev.pst.mayShrink THEN "mayShrink"
+    ELSE IF ~RegionsSame(p.fs.regs, ev.rl) THEN "registry"
+    ELSE StateDiff(p.fs, ev.st)
+
 Judge(r, ev, u) ==
     LET od == OutDiff(r, ev, u)
         sd == StateDiff(r.fs, ev.st)
@@ -109,14 +135,20 @@ Judge(r, ev, u) ==
 Step ==
     /\ i <= Len(Traces[tid].ev)
     /\ LET ev == Traces[tid].ev[i]
-       IN  IF verdict.c # "conform" THEN UNCHANGED <<fs, verdict>>
+       IN  IF verdict.c # "conform" THEN UNCHANGED <<ps, verdict>>
            ELSE IF ev.ev = "addr" THEN
-               /\ fs' = [fs EXCEPT !.regs = Append(fs.regs, ev.reg)]
+               /\ ps' = [ps EXCEPT !.fs.regs = Append(fs.regs, ev.reg)]
                /\ UNCHANGED verdict
+           ELSE IF ev.ev = "g" /\ ~(ps.active /\ ev.hascode) THEN
+               \* no active print (or no G/M/T code): the command passes untouched, untracked
+               LET d == IF ev.res # "unchanged" THEN "result.kind" ELSE PluginDiff(ps, ev)
+               IN  /\ UNCHANGED ps
+                   /\ verdict' = IF d = "" THEN verdict
+                                 ELSE [c |-> "diverged", s |-> i, f |-> d, dbg |-> <<>>]
            ELSE IF ev.ev = "g" THEN
                IF ev.res = "exc" \/ ~Applicable(fs, ev.in) THEN
                    /\ verdict' = [c |-> "unmodelled", s |-> i, f |-> ev.in.code, dbg |-> <<>>]
-                   /\ UNCHANGED fs
+                   /\ UNCHANGED ps
                ELSE
                    LET r0 == HandleGcode(fs, ev.in)
                        d0 == Judge(r0, ev, r0.fs.funit)
@@ -128,7 +160,7 @@ Step ==
                             ELSE LET tb == CHOOSE tb \in alt : TRUE
                                  IN  HandleGcode([fs EXCEPT !.zt = tb[1], !.et = tb[2]], ev.in)
                        d == Judge(r, ev, r.fs.funit)
-                   IN  /\ fs' = [r.fs EXCEPT !.zt = 0, !.et = 0]
+                   IN  /\ ps' = [ps EXCEPT !.fs = [r.fs EXCEPT !.zt = 0, !.et = 0]]
                        /\ verdict' = IF d = "" THEN verdict
                                      ELSE [c |-> "diverged", s |-> i, f |-> d,
                                            dbg |-> [k \in 1..Len(r.out) |->
@@ -137,23 +169,70 @@ Step ==
            ELSE IF ev.ev = "at" THEN
                IF ev.res = "exc" THEN
                    /\ verdict' = [c |-> "unmodelled", s |-> i, f |-> "at", dbg |-> <<>>]
-                   /\ UNCHANGED fs
+                   /\ UNCHANGED ps
                ELSE
-                   LET r0 == HandleAt(fs, ev.in.acts, ev.in.streaming)
-                       r1 == HandleAt([fs EXCEPT !.zt = 1], ev.in.acts, ev.in.streaming)
-                       r2 == HandleAt([fs EXCEPT !.zt = -1], ev.in.acts, ev.in.streaming)
+                   LET at(f) == IF ps.active THEN HandleAt(f, ev.in.acts, ev.in.streaming)
+                                ELSE Res(f, "suppress", <<>>)
+                       r0 == at(fs)
+                       r1 == at([fs EXCEPT !.zt = 1])
+                       r2 == at([fs EXCEPT !.zt = -1])
                        d0 == Judge(r0, ev, r0.fs.funit)
                        r == IF d0 = "" THEN r0
                             ELSE IF Judge(r1, ev, r1.fs.funit) = "" THEN r1
                             ELSE IF Judge(r2, ev, r2.fs.funit) = "" THEN r2 ELSE r0
                        d == Judge(r, ev, r.fs.funit)
-                   IN  /\ fs' = [r.fs EXCEPT !.zt = 0]
+                   IN  /\ ps' = [ps EXCEPT !.fs = [r.fs EXCEPT !.zt = 0]]
                        /\ verdict' = IF d = "" THEN verdict
                                      ELSE [c |-> "diverged", s |-> i, f |-> d,
                                            dbg |-> [k \in 1..Len(r.out) |->
                                                      [code |-> r.out[k].code, w |-> r.out[k].wm,
                                                       kind |-> r.out[k].kind]]]
-           ELSE UNCHANGED <<fs, verdict>>
+           ELSE IF ev.ev = "set" THEN
+               /\ ps' = [ps EXCEPT !.store = StoreOf(ev.store, ev.storex, Traces[tid].q)]
+               /\ UNCHANGED verdict
+           ELSE IF ev.ev = "pev" THEN
+               LET r == PluginEvent(ps, ev.name)
+                   d == IF ev.exc # "" THEN "event.raised"
+                        ELSE IF ~NotesSame(r.notes, ev.notes) THEN "notifications"
+                        ELSE PluginDiff(r.ps, ev)
+               IN  /\ ps' = r.ps
+                   /\ verdict' = IF d = "" THEN verdict
+                                 ELSE [c |-> "diverged", s |-> i, f |-> d, dbg |-> <<>>]
+           ELSE IF ev.ev = "hook" THEN
+               LET r == PluginHook(ps, ev.stype, ev.sname)
+                   rr == [fs |-> r.ps.fs, res |-> IF r.res = "none" THEN "none" ELSE "list",
+                          out |-> r.out]
+                   d0 == IF ev.res # rr.res THEN "result.kind"
+                         ELSE IF Len(ev.out) # Len(rr.out) THEN "result.length"
+                         ELSE IF \E k \in 1..Len(rr.out) :
+                                     ~CmdSame(rr.out[k], ev.out[k], r.ps.fs.funit)
+                              THEN "result.command"
+                         ELSE PluginDiff(r.ps, ev)
+                   \* float tie-break of equal heights, as for moves
+                   alt == {z \in {-1, 1} :
+                             LET ra == PluginHook([ps EXCEPT !.fs.zt = z], ev.stype, ev.sname)
+                             IN  /\ Len(ra.out) = Len(ev.out)
+                                 /\ \A k \in 1..Len(ra.out) :
+                                        CmdSame(ra.out[k], ev.out[k], ra.ps.fs.funit)}
+                   d == IF d0 \in {"result.length", "result.command"} /\ alt # {} THEN "" ELSE d0
+               IN  /\ ps' = [r.ps EXCEPT !.fs.zt = 0]
+                   /\ verdict' = IF d = "" THEN verdict
+                                 ELSE [c |-> "diverged", s |-> i, f |-> d, dbg |-> <<>>]
+           ELSE IF ev.ev = "api" THEN
+               LET fresh == IF Len(ev.rl) > 0 THEN ev.rl[Len(ev.rl)].id ELSE ""
+                   r == PluginApi(ps, ev, fresh)
+                   d == IF ev.status = -1 THEN "api.raised"
+                        ELSE IF r.status # ev.status THEN "api.status"
+                        ELSE IF ~NotesSame(r.notes, ev.notes) THEN "notifications"
+                        ELSE PluginDiff(r.ps, ev)
+               IN  /\ ps' = r.ps
+                   /\ verdict' = IF d = "" THEN verdict
+                                 ELSE [c |-> "diverged", s |-> i, f |-> d, dbg |-> <<>>]
+           ELSE IF ev.ev = "get" THEN
+               /\ UNCHANGED ps
+               /\ verdict' = IF RegionsSame(fs.regs, ev.rl) THEN verdict
+                             ELSE [c |-> "diverged", s |-> i, f |-> "get.payload", dbg |-> <<>>]
+           ELSE UNCHANGED <<ps, verdict>>
     /\ i' = i + 1
     /\ UNCHANGED tid
 
@@ -161,7 +240,7 @@ Done ==
     /\ i = Len(Traces[tid].ev) + 1
     /\ TLCSet(2, Append(TLCGet(2), [id |-> Traces[tid].id, t1 |-> verdict]))
     /\ i' = i + 1
-    /\ UNCHANGED <<tid, fs, verdict>>
+    /\ UNCHANGED <<tid, ps, verdict>>
 
 Next == Step \/ Done
 Spec == Init /\ [][Next]_vars
